@@ -15,6 +15,19 @@ from .gen import objects as O
 _SCRATCH: Optional[str] = None
 
 
+def _lib_of():
+    # library functions are called from the modules that define them (not through a name another module happens to import)
+    import perception_eval.evaluation.matching.objects_filter as m
+
+    return m
+
+
+def _lib_or():
+    import perception_eval.evaluation.result.object_result as m
+
+    return m
+
+
 def scratch_dir() -> str:
     global _SCRATCH
     if _SCRATCH is None:
@@ -155,7 +168,7 @@ def build_frame(c: Dict[str, Any]):
     gts = [mk(g, True) for g in c["gts"]]
     ests = [mk(e, False) for e in c["ests"]]
     frame_gt = FrameGroundTruth(unix_time=t, frame_name="0", objects=gts, transforms=[O.ego2map(c["ego_pos"], c["ego_yaw"])])
-    results = mgr_mod.get_object_results(
+    results = _lib_or().get_object_results(
         evaluation_task=config.evaluation_task,
         estimated_objects=ests,
         ground_truth_objects=gts,
@@ -270,10 +283,10 @@ def build_frame_2d(c: Dict[str, Any]):
 
     gts = [mk(g, True) for g in c["gts"]]
     ests = [mk(e, False) for e in c["ests"]]
-    gts = mgr_mod.filter_objects(gts, True, **{k: v for k, v in config.filtering_params.items() if k in ("target_labels",)})
-    ests = mgr_mod.filter_objects(ests, False, **{k: v for k, v in config.filtering_params.items() if k in ("target_labels",)})
+    gts = _lib_of().filter_objects(gts, True, **{k: v for k, v in config.filtering_params.items() if k in ("target_labels",)})
+    ests = _lib_of().filter_objects(ests, False, **{k: v for k, v in config.filtering_params.items() if k in ("target_labels",)})
     frame_gt = FrameGroundTruth(unix_time=t, frame_name="0", objects=gts)
-    results = mgr_mod.get_object_results(
+    results = _lib_or().get_object_results(
         evaluation_task=config.evaluation_task,
         estimated_objects=ests,
         ground_truth_objects=gts,
